@@ -926,3 +926,205 @@ func assembledStrings(v ssa.Value, max int) []string {
 	}
 	return build(v, map[ssa.Value]bool{}, 0)
 }
+
+// stuckLoops: loops that read a token from a cursor held in a local slot (a method called on the slot) and can return to
+// their head without having stored a new cursor into it: the next iteration reads the same token again, for ever.
+func stuckLoops(fn *ssa.Function, isCursor func(types.Type) bool) (stuck []ssa.Instruction, nLoops int) {
+	for _, lp := range naturalLoops(fn) {
+		// the cursor slots read in this loop
+		slots := map[*ssa.Alloc]ssa.Instruction{}
+		for b := range lp.Blocks {
+			for _, in := range b.Instrs {
+				call, ok := in.(*ssa.Call)
+				if !ok || len(call.Call.Args) == 0 {
+					continue
+				}
+				al, ok := call.Call.Args[0].(*ssa.Alloc)
+				if !ok || lp.Blocks[al.Block()] {
+					continue
+				}
+				if pt, ok := al.Type().(*types.Pointer); ok && isCursor(pt.Elem()) {
+					slots[al] = in
+				}
+			}
+		}
+		for al, at := range slots {
+			// only loops that do advance the cursor somewhere
+			advances := false
+			for b := range lp.Blocks {
+				for _, in := range b.Instrs {
+					if st, ok := in.(*ssa.Store); ok && st.Addr == ssa.Value(al) {
+						advances = true
+					}
+				}
+			}
+			if !advances {
+				continue
+			}
+			nLoops++
+			start := loopBodyStart(lp)
+			if start == nil {
+				start = lp.Header
+			}
+			stores := func(b *ssa.BasicBlock) bool {
+				for _, in := range b.Instrs {
+					if st, ok := in.(*ssa.Store); ok && st.Addr == ssa.Value(al) {
+						return true
+					}
+				}
+				return false
+			}
+			seen := map[*ssa.BasicBlock]bool{}
+			work := []*ssa.BasicBlock{start}
+			first := true
+			found := false
+			for len(work) > 0 && !found {
+				b := work[len(work)-1]
+				work = work[:len(work)-1]
+				if !lp.Blocks[b] || (seen[b] && !(b == lp.Header && first)) {
+					continue
+				}
+				if b == lp.Header && !first {
+					found = true
+					break
+				}
+				first = false
+				seen[b] = true
+				if stores(b) {
+					continue
+				}
+				for _, s := range b.Succs {
+					if s == lp.Header {
+						found = true
+					}
+					work = append(work, s)
+				}
+			}
+			if found {
+				stuck = append(stuck, at)
+			}
+		}
+	}
+	return
+}
+
+// staleGuard: an element read s[b+o] that is dominated by a bounds test on the same base b, b+g < len(s), with g < o: the
+// code took the trouble to check the bound and then moved past what it checked (typically by incrementing the index
+// between the test and the read).
+type staleGuard struct {
+	Read    ssa.Instruction
+	Offset  int64
+	Guarded int64
+}
+
+func staleGuards(fn *ssa.Function) (out []staleGuard, nReads int) {
+	type pair struct {
+		base ssa.Value
+		off  int64
+	}
+	var expand func(v ssa.Value, d int) []pair
+	expand = func(v ssa.Value, d int) []pair {
+		if d > 5 {
+			return []pair{{v, 0}}
+		}
+		switch x := v.(type) {
+		case *ssa.BinOp:
+			if k, ok := constInt(x.Y); ok && (x.Op == token.ADD || x.Op == token.SUB) {
+				if x.Op == token.SUB {
+					k = -k
+				}
+				var ps []pair
+				for _, q := range expand(x.X, d+1) {
+					ps = append(ps, pair{q.base, q.off + k})
+				}
+				return ps
+			}
+			if k, ok := constInt(x.X); ok && x.Op == token.ADD {
+				var ps []pair
+				for _, q := range expand(x.Y, d+1) {
+					ps = append(ps, pair{q.base, q.off + k})
+				}
+				return ps
+			}
+		case *ssa.Phi:
+			// only merges after a conditional step (not loop headers, whose back edge would run away)
+			for _, lp := range naturalLoops(x.Parent()) {
+				if lp.Header == x.Block() {
+					return []pair{{v, 0}}
+				}
+			}
+			var ps []pair
+			for _, e := range x.Edges {
+				if e == v {
+					continue
+				}
+				ps = append(ps, expand(e, d+1)...)
+			}
+			if len(ps) > 0 && len(ps) <= 8 {
+				return ps
+			}
+		}
+		return []pair{{v, 0}}
+	}
+	lenOf := func(v ssa.Value) ssa.Value {
+		call, ok := v.(*ssa.Call)
+		if !ok {
+			return nil
+		}
+		if bi, ok := call.Call.Value.(*ssa.Builtin); ok && bi.Name() == "len" {
+			return call.Call.Args[0]
+		}
+		return nil
+	}
+	eachInstr(fn, func(b *ssa.BasicBlock, in ssa.Instruction) {
+		var coll, idx ssa.Value
+		switch x := in.(type) {
+		case *ssa.Index:
+			coll, idx = x.X, x.Index
+		case *ssa.IndexAddr:
+			coll, idx = x.X, x.Index
+		case *ssa.Lookup:
+			if isString(x.X.Type()) {
+				coll, idx = x.X, x.Index
+			}
+		}
+		if coll == nil {
+			return
+		}
+		if _, isConst := idx.(*ssa.Const); isConst {
+			return
+		}
+		nReads++
+		reads := expand(idx, 0)
+		// guards in force here: base + g < len(coll)
+		guards := map[ssa.Value]int64{}
+		have := map[ssa.Value]bool{}
+		for _, f := range factsAt(b) {
+			bo, ok := f.Cond.(*ssa.BinOp)
+			if !ok {
+				continue
+			}
+			var lhs ssa.Value
+			switch {
+			case lenOf(bo.Y) != nil && sameValue(lenOf(bo.Y), coll) && ((bo.Op == token.LSS && f.True) || (bo.Op == token.GEQ && !f.True)):
+				lhs = bo.X
+			case lenOf(bo.X) != nil && sameValue(lenOf(bo.X), coll) && ((bo.Op == token.GTR && f.True) || (bo.Op == token.LEQ && !f.True)):
+				lhs = bo.Y
+			default:
+				continue
+			}
+			for _, q := range expand(lhs, 0) {
+				if !have[q.base] || q.off > guards[q.base] {
+					guards[q.base], have[q.base] = q.off, true
+				}
+			}
+		}
+		for _, r := range reads {
+			if have[r.base] && r.off > guards[r.base] {
+				out = append(out, staleGuard{in, r.off, guards[r.base]})
+				return
+			}
+		}
+	})
+	return
+}
